@@ -324,6 +324,12 @@ def e4_jobs(ctx, spec, cfg, mode, lengths, maxnul=0, timeout=600, mem_mb=10000, 
                 # no NUL in the input: the end of the buffer is met once, with pending text (one 'goto
                 # yy_find_action'); no NUL transition, no EOF action, every action returns
                 b.update({'goto_match': 1, 'goto_find_action': 2, 'goto_do_action': 1, 'outer': 1})
+            if mode in ('less', 'unput', 'input') and n > 0:
+                # one yylex() call on a yy_scan_buffer source whose action returns after the edit: same arm bounds as the
+                # E1 step (each NUL takes a NUL arm once, the end of the buffer is met once, no refill continues the scan)
+                k = min(maxnul, n)
+                b.update({'outer': 1, 'goto_match_cont': 1, 'goto_match_nul': 1 + k, 'goto_find_action_nul': 1 + k,
+                          'goto_find_action_last': 2, 'goto_do_action': 1})
             if interior:
                 # the end-of-buffer code is not entered: its back edges (and the outer action loop) are
                 # not taken; the unwinding assertions check exactly that
